@@ -158,6 +158,20 @@ CLAIMED["C10"] = (
     "Enum-member values and Django-style persistent models are not generated.  Two genuine defects repaired "
     "(fix: 12d44f1 falsy model replaced, fix: 7e8e568 falsy start_value ignored).")
 
+CLAIMED["C13"] = (
+    "Theorems (Properties/C13.v): every calling style (send by name, event attribute, item of events / "
+    "allowed_events, trigger bound onto another object) is the same operation on the same trigger; "
+    "allowed_events lists each event once and exactly the events bound to a transition leaving the current "
+    "state; a name bound to no such transition - in particular any name that is not a declared event - yields "
+    "TransitionNotAllowed(name, state) or nothing when tolerated, with the configuration unchanged (nothing else "
+    "invoked).  " + ENG_TIE + "Here the events of each history go through a random mix of the five calling "
+    "styles (results, exceptions, state, allowed_events, callbacks compared), and an attribute probe passes "
+    "every name in dir(sm) that is not a declared event (~150 per machine) plus odd strings to send() on fresh "
+    "instances, requiring unknown-event behaviour and no side effect.",
+    "Coq proof (allowed_events exact and duplicate-free, unknown event frame) + differential correspondence + attribute probe",
+    "DESIGN.md 5 C13",
+    "events (all declared events) is compared through the styles only.  One genuine defect repaired (fix: e53a549).")
+
 PENDING_REASON = "check not built yet in this session (work in progress; see DESIGN.md 9 for the order of work)"
 
 ALL = [f"C{i:02d}" for i in range(1, 19)]
